@@ -260,7 +260,9 @@ class ContainerCodec(Codec):
                 if not isinstance(value, list):
                     msg = f"Expected list, got {type(value)}"
                     raise SerDesError(msg)
-                return tuple(self._unwrap(v, self.dispatcher) for v in value)
+                # a list comprehension, not a generator expression: a generator adds a stack frame per
+                # nesting level, and the decoder must reach every depth the encoder accepts
+                return tuple([self._unwrap(v, self.dispatcher) for v in value])
             case TypeTag.DICT:
                 if not isinstance(value, dict):
                     msg = f"Expected dict, got {type(value)}"
